@@ -73,6 +73,7 @@ Proof.
       destruct Po as (A & B & C & f & (sd' & D1 & D2 & D3) & E). split; auto. split; auto.
       exists f. split; auto. exists sd'. repeat split; auto. cbn.
       assert (f <> t) by (intros ->; congruence). rewrite upd_other; auto.
+    + intros f0 Hin. unfold inflight in *. cbn [mk stk mem]. rewrite upd_same. rewrite <- Hk in Hin. exact Hin.
   - (* kcopy *) pose proof (i_pop _ _ I t) as Po. unfold pop_ok in Po. rewrite <- Hk in Po.
     destruct Po as (P1 & P2 & f & P3 & P4).
     stp Hk. exists (gset_role g t RIdle).
@@ -85,6 +86,7 @@ Proof.
       split; auto. split; auto. exists f. split; auto.
       destruct P3 as (sd' & Q1 & Q2 & Q3). exists sd'. repeat split; auto. cbn.
       assert (f <> t) by (intros ->; congruence). rewrite upd_other; auto.
+    + intros f0 Hin. unfold inflight in *. cbn [mk stk mem set_ndata ndata]. rewrite !upd_same. rewrite <- Hk in Hin. exact Hin.
   - (* kout *) stp Hk. eapply kout_inv; eauto.
   - (* kstate *) pose proof (i_pop _ _ I t) as Po. unfold pop_ok in Po. rewrite <- Hk in Po.
     destruct Po as ((sd' & Q1 & Q2 & Q3) & FN).
@@ -97,6 +99,7 @@ Proof.
       * unfold pop_ok. cbn [mk stk mem gset_role grole nthr]. rewrite upd_same.
         split; [exists sd'; split; [auto|]; split; [|exact Q3]; cbn [gset_role grole]; rewrite upd_other; auto|].
         split; auto. exists r0. rewrite upd_other; auto.
+      * intros f0 Hin. unfold inflight in *. cbn [mk stk mem]. rewrite upd_same. rewrite <- Hk in Hin. exact Hin.
     + destruct (wc + 1 <? cnt) eqn:L.
       * stp Hk. apply Z.ltb_lt in L.
         eapply (wake_inv s g t sd cnt wc f p k r (mem s)); eauto.
